@@ -259,65 +259,6 @@ mod vharness {
     #[kani::stub_verified(encode_6bits)]
     fn decode_sound_7_modular() { decode_sound::<7, 5, 7>(); kani::cover!(true, "harness end reachable"); }
 
-    // ---------------------------------------------------------------- long inputs, concrete contents (BOUNDED STAND-IN, not a proof)
-    // The symbolic obligations above stop at 13 characters. Encoders/decoders that batch their work (buffers of 256..4096 bytes)
-    // can fail only at particular long lengths; with CONCRETE contents CBMC's symbolic execution constant-folds everything, so
-    // every length in LO..=HI can be run: write_to_fmt(x[..n]) == b64 spec, and decode_vec of it gives x[..n] back.
-    struct BigSink { buf: [u8; 4400], n: usize, calls: usize }
-    impl fmt::Write for BigSink {
-        fn write_str(&mut self, x: &str) -> fmt::Result {
-            let xb = x.as_bytes();
-            if self.n + xb.len() > 4400 { return Err(fmt::Error); }
-            let mut i = 0;
-            while i < xb.len() { self.buf[self.n + i] = xb[i]; i += 1; }
-            self.n += xb.len();
-            self.calls += 1;
-            Ok(())
-        }
-    }
-    struct DD<'a>(&'a [u8]);
-    impl fmt::Display for DD<'_> {
-        fn fmt(&self, f: &mut fmt::Formatter<'_>) -> fmt::Result { write_to_fmt(self.0, f) }
-    }
-    fn sweep(lo: usize, hi: usize) {
-        let mut x = [0u8; 3300];
-        let mut i = 0;
-        while i < 3300 { x[i] = (i as u8).wrapping_mul(37).wrapping_add(11); i += 1; }
-        let mut n = lo;
-        while n <= hi {
-            let mut sink = BigSink { buf: [0; 4400], n: 0, calls: 0 };
-            let r = fmt::write(&mut sink, format_args!("{}", DD(&x[..n])));
-            vassert!(r.is_ok() && sink.n == elen(n), "[C09] write_to_fmt emits the spec length for every input length (concrete sweep)");
-            // spec encoding, character by character
-            let mut ok = true;
-            let mut g = 0;
-            while g * 3 < n {
-                let b0 = x[g * 3];
-                let b1 = if g * 3 + 1 < n { x[g * 3 + 1] } else { 0 };
-                let b2 = if g * 3 + 2 < n { x[g * 3 + 2] } else { 0 };
-                let sx = sextets(&[b0, b1, b2]);
-                let k = if n - g * 3 >= 3 { 4 } else { n - g * 3 + 1 };
-                let mut j = 0;
-                while j < k { ok &= sink.buf[g * 4 + j] == alpha(sx[j]); j += 1; }
-                g += 1;
-            }
-            vassert!(ok, "[C09] write_to_fmt(b) == b64(b) for every input length (concrete sweep)");
-            let d = decode_vec(as_str(&sink.buf[..sink.n]));
-            let back = match d { Ok(v) => v.len() == n && v[..] == x[..n], Err(_) => false };
-            vassert!(back, "[C09] decode(encode(b)) == b for every input length (concrete sweep)");
-            n += 1;
-        }
-    }
-    macro_rules! sweeps { ($($name:ident = $lo:literal ..= $hi:literal;)*) => { $(
-        #[kani::proof] #[kani::unwind(4500)]
-        fn $name() { sweep($lo, $hi); kani::cover!(true, "harness end reachable"); }
-    )* }; }
-    sweeps! {
-        sweep_0_64 = 0 ..= 64;
-        sweep_180_200 = 180 ..= 200; sweep_372_392 = 372 ..= 392; sweep_756_780 = 756 ..= 780;
-        sweep_1524_1548 = 1524 ..= 1548; sweep_3060_3084 = 3060 ..= 3084;
-    }
-
     // ---------------------------------------------------------------- canary: a false claim that MUST fail (vacuity guard)
     #[kani::proof] #[kani::unwind(8)]
     fn canary_padding_accepted() {
